@@ -184,16 +184,22 @@ def _convert_returns(stmts: List[ast.stmt], make_result) -> List[ast.stmt]:
             continue
         if isinstance(s, ast.Try) and _has_return([s]):
             # allowed only when it is the last statement: every return becomes the result, fall-through ends
-            if rest:
-                raise _CannotInline("return inside try followed by more statements")
+            if rest and s.finalbody:
+                raise _CannotInline("return inside try/finally followed by more statements")
+            body_has, body_all = _has_return(s.body), _always_returns(s.body)
+            if rest and body_has and not body_all:
+                raise _CannotInline("return inside a try body that also falls through")
             new = copy.copy(s)
             new.body = _convert_returns(s.body, make_result)
             new.handlers = []
             for h in s.handlers:
                 h2 = copy.copy(h)
-                h2.body = _convert_returns(h.body, make_result) or [ast.Pass()]
+                hb = list(h.body) if _always_returns(h.body) else list(h.body) + [copy.deepcopy(x) for x in rest]
+                h2.body = _convert_returns(hb, make_result) or [ast.Pass()]
                 new.handlers.append(h2)
-            new.orelse = _convert_returns(s.orelse, make_result) if s.orelse else []
+            # what followed the try runs only when its body completed: that is the else clause
+            tail = list(s.orelse) + ([] if body_all else list(rest))
+            new.orelse = _convert_returns(tail, make_result) if tail else []
             out.append(new)
             return out
         out.append(s)
@@ -374,7 +380,7 @@ class Inliner:
 
     def _inlinable(self, q: str, inf: _Info, caller_q: str) -> bool:
         fn = inf.node
-        if fn.decorator_list:
+        if any(not (isinstance(d, ast.Name) and d.id in ("staticmethod", "classmethod")) for d in fn.decorator_list):
             return False
         if q == caller_q:
             return False
@@ -597,6 +603,15 @@ class Inliner:
             for x in out:
                 ast.fix_missing_locations(x)
             return out
+        if isinstance(s, ast.Raise) and isinstance(s.exc, ast.Call) and self._target(s.exc, cls) is not None:
+            tmp = ast.Name(id="_sv_exc", ctx=ast.Store())
+            rep = self._expand_call(s.exc, cls, caller_q, assign_to([tmp]))
+            if rep is None:
+                return None
+            s2 = copy.copy(s)
+            s2.exc = ast.copy_location(ast.Name(id="_sv_exc", ctx=ast.Load()), s.exc)
+            ast.fix_missing_locations(s2)
+            return rep + [s2]
         if isinstance(s, ast.AugAssign) and isinstance(s.value, ast.Call):
             tmp = ast.Name(id="_sv_tmp", ctx=ast.Store())
             rep = self._expand_call(s.value, cls, caller_q, assign_to([tmp]))
@@ -777,7 +792,42 @@ class Inliner:
                     new_defs.append(fd)
                     return ast.copy_location(ast.Name(id=fd.name, ctx=ast.Load()), lam)
 
+            # name = functools.cache(helper)  ->  @functools.cache def name(params): return helper(params)
+            if isinstance(s, ast.Assign) and len(s.targets) == 1 and isinstance(s.targets[0], ast.Name) and isinstance(s.value, ast.Call) and len(s.value.args) == 1 and not s.value.keywords:
+                deco = s.value.func
+                dn = deco.attr if isinstance(deco, ast.Attribute) else (deco.id if isinstance(deco, ast.Name) else None)
+                if dn in ("cache", "lru_cache", "wraps"):
+                    fake = ast.Call(func=ast.Name(id="partial", ctx=ast.Load()), args=[s.value.args[0]], keywords=[])
+                    fd = self._closure_for_partial(fake, cls, s.targets[0].id)
+                    if fd is not None:
+                        fd.decorator_list = [copy.deepcopy(deco)]
+                        ast.copy_location(fd, s)
+                        ast.fix_missing_locations(fd)
+                        self.done.append(f"{dn}(helper) -> decorated def {fd.name}")
+                        out.append(fd)
+                        continue
             T().generic_visit(s)
+            # x = [elt for t in it if helper(t)]  with a multi-statement helper  ->  explicit loop
+            if isinstance(s, (ast.Assign, ast.AnnAssign)) and isinstance(s.value, (ast.ListComp, ast.SetComp)) and len(s.value.generators) == 1 and not s.value.generators[0].is_async:
+                tg = s.targets[0] if isinstance(s, ast.Assign) and len(s.targets) == 1 else getattr(s, "target", None)
+                comp = s.value
+                gen = comp.generators[0]
+                needs = any(isinstance(x, ast.Call) and (t := self._target(x, cls)) is not None and self._single_expr(t[1]) is None
+                            for part in [comp.elt] + list(gen.ifs) for x in ast.walk(part))
+                if needs and isinstance(tg, ast.Name):
+                    is_list = isinstance(comp, ast.ListComp)
+                    init = ast.Assign(targets=[ast.Name(id=tg.id, ctx=ast.Store())], value=ast.List(elts=[], ctx=ast.Load()) if is_list else ast.Call(func=ast.Name(id="set", ctx=ast.Load()), args=[], keywords=[]), type_comment=None)
+                    add = ast.Expr(value=ast.Call(func=ast.Attribute(value=ast.Name(id=tg.id, ctx=ast.Load()), attr="append" if is_list else "add", ctx=ast.Load()), args=[comp.elt], keywords=[]))
+                    body: List[ast.stmt] = [add]
+                    for cond in reversed(gen.ifs):
+                        body = [ast.If(test=cond, body=body, orelse=[])]
+                    loop = ast.For(target=gen.target, iter=gen.iter, body=body, orelse=[], type_comment=None)
+                    for x in (init, loop):
+                        ast.copy_location(x, s)
+                        ast.fix_missing_locations(x)
+                    self.done.append(f"comprehension with helper filter -> loop ({tg.id})")
+                    out += new_defs + [init, loop]
+                    continue
             # `name = partial(...)` becomes `def name(...)`
             if len(new_defs) == 1 and isinstance(s, ast.Assign) and len(s.targets) == 1 and isinstance(s.targets[0], ast.Name) and isinstance(s.value, ast.Name) and s.value.id == new_defs[0].name:
                 new_defs[0].name = s.targets[0].id
